@@ -221,6 +221,23 @@ package config
 //@   returns#noothers called("github.com/knadh/koanf/providers/env.ProviderWithValue") == 0 && called("github.com/knadh/koanf/providers/env.Provider") == 0
 //@        && called("github.com/knadh/koanf/providers/file.Provider") == 0 && called("github.com/knadh/koanf/providers/posflag.Provider") == 0
 
+// ---- C08 / C09: where the top-level values come from, in which order; strict decoding ---------------
+// "Top-level values come from, in increasing precedence, defaults, MOCKERY_* environment variables, the
+// config file, and command-line flags": koanf's later Load overrides the earlier one, so the order of the
+// Load calls on the instance that NewDefaultKoanf returned is the precedence. "An unknown configuration
+// key ... produce[s] a non-zero exit": the decoder is asked to reject unused keys.
+// Only the clauses below are claimed (they carry their own property tags); the function itself has none:
+// after the decoder has filled the RootConfig nothing is known about it here (the decoder is an opaque
+// library), so the precondition of RootConfig.Initialize cannot be discharged at this call site and is not
+// part of any claim -- it is what C08's contracts assume about decoded configurations (DESIGN.md 0.2).
+//@ func NewRootConfig
+//@   site#env[C08] Load@0: $recv == k && called("NewDefaultKoanf") == 1 && lastErr("NewDefaultKoanf") == nil && called("ProviderWithValue") == 1 && called("github.com/knadh/koanf/providers/file.Provider") == 0 && called("github.com/knadh/koanf/providers/posflag.Provider") == 0
+//@   site#file[C08] Load@1: $recv == k && lastErr("Load") == nil && called("ProviderWithValue") == 1 && called("github.com/knadh/koanf/providers/file.Provider") == 1 && called("github.com/knadh/koanf/providers/posflag.Provider") == 0 && $1 != nil
+//@   site#flags[C08] Load@2: $recv == k && lastErr("Load") == nil && called("github.com/knadh/koanf/providers/file.Provider") == 1 && called("github.com/knadh/koanf/providers/posflag.Provider") == 1
+//@   site#strict[C09] UnmarshalWithConf: $recv == k && called("Load") >= 2 && lastErr("Load") == nil && $2.DecoderConfig != nil && $2.DecoderConfig.ErrorUnused
+//@   site#init[C09] Initialize: lastErr("UnmarshalWithConf") == nil
+//@   returns#noswallow[C09] err == nil ==> lastErr("UnmarshalWithConf") == nil && lastErr("Initialize") == nil && lastErr("Load") == nil
+
 // ---- C09: environment values never crash the loader ---------------------------------------------
 // The MOCKERY_* value callback must not panic on any value (strconv.ParseBool accepts "true" and "false").
 //@ axiom parsebool_true: second(strconv.ParseBool("true")) == nil && second(strconv.ParseBool("false")) == nil
